@@ -213,6 +213,11 @@ FLAGS = [
     ("HDUPDD_CHECKS_ACCESS", "hdf/src/hfiledd.c", "Hdupdd", r"!\s*\(\s*file_rec->access\s*&\s*DFACC_WRITE\s*\)"),
     ("HDREUSE_CHECKS_ACCESS", "hdf/src/hfiledd.c", "HDreuse_tagref", r"!\s*\(\s*file_rec->access\s*&\s*DFACC_WRITE\s*\)"),
     ("HSETLENGTH_CHECKS_ACCESS", "hdf/src/hfile.c", "Hsetlength", r"!\s*\(\s*access_rec->access\s*&\s*DFACC_WRITE\s*\)"),
+    # C13: Hclose refuses a file id through which access elements are still attached (whatever other ids keep the file open)
+    ("HPREAD_ZERO_FILLS_RESERVED", "hdf/src/hfile.c", "HP_read", r"file_rec->cache\s*&&\s*\(file_rec->dirty\s*&\s*FILE_END_DIRTY\)\)\s*\|\|\s*bytes\s*>\s*file_rec->f_end_off\s*-\s*file_rec->f_cur_off\)\s*HGOTO_ERROR[^;]*;\s*memset\("),
+    ("HLCREATE_REFUSES_ZERO", "hdf/src/hblocks.c", "HLcreate", r"block_length\s*<=\s*0\s*\|\|\s*number_blocks\s*<=\s*0"),
+    ("HLCONVERT_REFUSES_ZERO", "hdf/src/hblocks.c", "HLconvert", r"block_length\s*<=\s*0\s*\|\|\s*number_blocks\s*<=\s*0"),
+    ("HCLOSE_CHECKS_ID_AIDS", "hdf/src/hfile.c", "Hclose", r"HAsearch_atom\(\s*AIDGROUP\s*,[^;]*&file_id\)\s*!=\s*NULL"),
     ("HOPEN_REOPEN_SETS_ACCESS", "hdf/src/hfile.c", "Hopen", r"file_rec->file\s*=\s*f;[^}]*file_rec->access\s*(\|=|=)[^;]*DFACC_WRITE|file_rec->access\s*(\|=|=)[^;}]*(DFACC_WRITE|acc_mode)[^}]*file_rec->file\s*=\s*f;"),
 ]
 
